@@ -113,6 +113,45 @@ func drLeanBool(b bool) string {
 	return "false"
 }
 
+
+// --- per-connection set-up of the servers and the transmission option (round 4: the configuration path is tied as well)
+
+// drAssigns reports whether node n contains the plain assignment `<lhs> = <rhs>` (dotted names).
+func drAssigns(n ast.Node, lhs, rhs string) bool {
+	found := false
+	ast.Inspect(n, func(x ast.Node) bool {
+		if as, ok := x.(*ast.AssignStmt); ok && as.Tok == token.ASSIGN && len(as.Lhs) == 1 && len(as.Rhs) == 1 &&
+			drDotted(as.Lhs[0]) == lhs && drDotted(as.Rhs[0]) == rhs {
+			found = true
+		}
+		return true
+	})
+	return found
+}
+
+var drTransmissionFields = []string{"TransmissionNStart", "TransmissionAcknowledgeTimeout", "TransmissionMaxRetransmit"}
+
+// drConnTakesTransmission: the function copies the three transmission parameters of the server configuration into the
+// configuration of the connection it creates (`cfg.X = s.cfg.X`).
+func drConnTakesTransmission(fd *ast.FuncDecl) bool {
+	for _, fld := range drTransmissionFields {
+		if !drAssigns(fd, "cfg."+fld, "s.cfg."+fld) {
+			return false
+		}
+	}
+	return true
+}
+
+// drConnDefaultCache: the NewConnWithOpts call of the function passes no response-message-cache option, i.e. the
+// connection gets the default (unbounded, EXCHANGE_LIFETIME) cache of udp/client.
+func drConnDefaultCache(fd *ast.FuncDecl, pkg string) bool {
+	calls := drCallsIn(fd, pkg+".NewConnWithOpts")
+	if len(calls) != 1 {
+		fail("%s: expected one %s.NewConnWithOpts call", fd.Name.Name, pkg)
+	}
+	return len(drCallsIn(calls[0], pkg+".WithResponseMessageCache")) == 0
+}
+
 func genDedup(g *gen, repo string) {
 	_, f := parseFile(repo, drConnFile)
 
@@ -302,6 +341,28 @@ func genDedup(g *gen, repo string) {
 	fmt.Fprintf(&b, "/-- processResponse caches an empty (code 0.00) or reset reply like any other reply (AST) -/\ndef emptyReplyCached : Bool := %s\n", drLeanBool(emptyCached))
 	fmt.Fprintf(&b, "/-- handleReq takes msgIDMutex.Lock(req.MessageID()) with a deferred Unlock before check/handle/store (AST) -/\ndef handleReqLockedPerMID : Bool := %s\n", drLeanBool(locked))
 	fmt.Fprintf(&b, "/-- checkMyMessageID: applies to confirmable messages only; distance guard and jump; NewConnWithOpts initial offset (AST) -/\ndef midGuard : Nat := %d\ndef midJump : Nat := %d\ndef midInitOffset : Nat := %d\n", guard, jump, initOff)
+	// servers: which cache do the connections they create get, and in which order does the datagram server look a peer up
+	_, fd := parseFile(repo, "dtls/server/server.go")
+	dtlsDefault := drConnDefaultCache(funcDecl(fd, "Server", "createConn"), "udpClient")
+	_, fu := parseFile(repo, "udp/server/server.go")
+	goc := funcDecl(fu, "Server", "getOrCreateConn")
+	udpDefault := drConnDefaultCache(goc, "client")
+	concretePos, wildcardPos := -1, -1
+	for i, st := range goc.Body.List {
+		if as, ok := st.(*ast.AssignStmt); ok && len(as.Lhs) == 1 && drDotted(as.Lhs[0]) == "cc" && len(as.Rhs) == 1 {
+			if ix, ok := as.Rhs[0].(*ast.IndexExpr); ok && drDotted(ix.X) == "s.conns" && identName(ix.Index) == "key" && concretePos < 0 {
+				concretePos = i
+			}
+		}
+		if is, ok := st.(*ast.IfStmt); ok && len(drCallsIn(is.Cond, "localAddrCanFallbackToWildcard")) == 1 && wildcardPos < 0 {
+			wildcardPos = i
+		}
+	}
+	if concretePos < 0 || wildcardPos < 0 {
+		fail("getOrCreateConn: the two peer-table look-ups were not recognised")
+	}
+	fmt.Fprintf(&b, "/-- dtls/server createConn and udp/server getOrCreateConn create their connections with the default response cache of udp/client (no WithResponseMessageCache option) (AST) -/\ndef dtlsServerConnDefaultCache : Bool := %s\ndef udpServerConnDefaultCache : Bool := %s\n", drLeanBool(dtlsDefault), drLeanBool(udpDefault))
+	fmt.Fprintf(&b, "/-- udp/server getOrCreateConn looks the peer up under the concrete local address before it falls back to the wildcard key (AST) -/\ndef udpPeerLookupConcreteFirst : Bool := %s\n", drLeanBool(concretePos < wildcardPos))
 	b.WriteString("\nend CoapVerif.Generated.Dedup\n")
 	g.write("Dedup.lean", b.String())
 }
@@ -484,6 +545,25 @@ func genRetransmit(g *gen, repo string) {
 	fmt.Fprintf(&b, "/-- handleSpecialMessages removes the pending entry keyed by the received message's MID (AST) -/\ndef recvRemovesByMID : Bool := %s\n", drLeanBool(ackRemoves))
 	fmt.Fprintf(&b, "/-- prepareWriteMessage stores a clone and registers the removal by MID that writeMessage defers (AST) -/\ndef storesClone : Bool := %s\ndef deferredRemovalByMID : Bool := %s\n", drLeanBool(storesClone), drLeanBool(deferredRemoval && deferClose))
 	fmt.Fprintf(&b, "/-- doInternal: a response reaching the token handler removes the request's pending entry and wakes the writer (RFC 7252 5.2.2) (AST) -/\ndef responseWakesWriter : Bool := %s\n", drLeanBool(respWakes))
+	// options.WithTransmission: each Apply method writes the three parameters verbatim; the servers copy them into the
+	// configuration of the connections they create
+	_, fo := parseFile(repo, "options/udpOptions.go")
+	verbatim := true
+	for _, name := range []string{"UDPServerApply", "DTLSServerApply", "UDPClientApply"} {
+		ap := funcDecl(fo, "TransmissionOpt", name)
+		if len(ap.Body.List) != 3 ||
+			!drAssigns(ap, "cfg.TransmissionNStart", "o.transmissionNStart") ||
+			!drAssigns(ap, "cfg.TransmissionAcknowledgeTimeout", "o.transmissionAcknowledgeTimeout") ||
+			!drAssigns(ap, "cfg.TransmissionMaxRetransmit", "o.transmissionMaxRetransmit") {
+			verbatim = false
+		}
+	}
+	_, fds := parseFile(repo, "dtls/server/server.go")
+	dtlsTakes := drConnTakesTransmission(funcDecl(fds, "Server", "createConn"))
+	_, fus := parseFile(repo, "udp/server/server.go")
+	udpTakes := drConnTakesTransmission(funcDecl(fus, "Server", "getOrCreateConn"))
+	fmt.Fprintf(&b, "/-- options/udpOptions.go: the three Apply methods of TransmissionOpt are exactly the three verbatim assignments (AST) -/\ndef transmissionOptCopiesVerbatim : Bool := %s\n", drLeanBool(verbatim))
+	fmt.Fprintf(&b, "/-- dtls/server createConn and udp/server getOrCreateConn copy NSTART, ACK_TIMEOUT and MAX_RETRANSMIT of the server configuration into the connection's (AST) -/\ndef dtlsServerConnTakesTransmission : Bool := %s\ndef udpServerConnTakesTransmission : Bool := %s\n", drLeanBool(dtlsTakes), drLeanBool(udpTakes))
 	b.WriteString("\nend CoapVerif.Generated.Retransmit\n")
 	g.write("Retransmit.lean", b.String())
 }
